@@ -5,15 +5,18 @@ From DS Require Import Gen.Constants Base.Bytes Base.Hash Base.HexId Base.FS Mod
      Proofs.LocalStoreProofs Proofs.PruneProofs.
 Import ListNotations.
 
-(* prune_safe: whatever LocalStore.Prune returns (nil, ChunkMissing, an I/O error, even an exhausted
-   recursion budget), for every path of the tree: it is as before, or it existed and is gone and then it
-   is a ".tmp-cacnk*" name or the canonical own-format name of an id outside the keep-set.  So referenced
-   chunks, chunks of the other format, junk files and directories are untouched. *)
-Theorem C16_prune_safe : forall (st : store) (keep : id -> bool) fuel bstr s0 s' e,
-  prune fuel st bstr keep s0 = (s', e) ->
+(* Below, [prune_gen true] is LocalStore.Prune (= [prune]) and [prune_gen false] is SFTPStore.Prune
+   (= [sftp_prune]: the same walk callback without the temp-file rule).
+
+   prune_safe: whatever Prune returns (nil, ChunkMissing, an I/O error, even an exhausted recursion
+   budget), for every path of the tree: it is as before, or it existed and is gone and then it is a
+   ".tmp-cacnk*" name (local stores only) or the canonical own-format name of an id outside the keep-set.
+   So referenced chunks, chunks of the other format, junk files and directories are untouched. *)
+Theorem C16_prune_safe : forall (tmp_rule : bool) (st : store) (keep : id -> bool) fuel bstr s0 s' e,
+  prune_gen tmp_rule fuel st bstr keep s0 = (s', e) ->
   forall q, stat q s' = stat q s0 \/
             (stat q s' = None /\ stat q s0 <> None /\
-             (has_prefix (last q []) tmpChunkPrefix_bytes = true \/
+             ((tmp_rule = true /\ has_prefix (last q []) tmpChunkPrefix_bytes = true) \/
               exists i, wf_id i /\ keep i = false /\ q = snd (name_from_id st i))).
 Proof. exact prune_safe. Qed.
 Print Assumptions C16_prune_safe.
@@ -21,30 +24,39 @@ Print Assumptions C16_prune_safe.
 (* ... in particular never a canonical chunk of the other format (by C20_name_injective it is not a
    canonical own-format name, and it does not start with the temp prefix). *)
 
-(* prune_complete: result nil => no canonical own-format chunk FILE with id outside keep remains, and no
-   temp-named FILE remains anywhere below the base. *)
-Theorem C16_prune_complete : forall (st : store) (keep : id -> bool) fuel bstr s0 s',
+(* prune_complete: result nil => no canonical own-format chunk FILE with id outside keep remains, and
+   (local stores) no temp-named FILE remains anywhere below the base. *)
+Theorem C16_prune_complete : forall (tmp_rule : bool) (st : store) (keep : id -> bool) fuel bstr s0 s',
   is_dir (stat (st_base st) s0) = true ->
-  prune fuel st bstr keep s0 = (s', None) ->
+  prune_gen tmp_rule fuel st bstr keep s0 = (s', None) ->
   (forall i en, wf_id i -> keep i = false ->
      stat (snd (name_from_id st i)) s' = Some en -> is_dir (Some en) = true) /\
-  (forall t en, stat (st_base st ++ t) s' = Some en ->
+  (tmp_rule = true ->
+   forall t en, stat (st_base st ++ t) s' = Some en ->
      has_prefix (last (st_base st ++ t) []) tmpChunkPrefix_bytes = true -> is_dir (Some en) = true).
 Proof. exact prune_complete. Qed.
 Print Assumptions C16_prune_complete.
 
-(* prune_stray_name_errors: a non-temp file below the base whose base name parses (own format) to an id
+(* prune_stray_name_errors: a (non-temp) file below the base whose base name parses (own format) to an id
    outside keep, while nothing exists at that id's canonical path (chunk name in a wrong directory,
    upper-case hex name), makes Prune return non-nil. *)
-Theorem C16_prune_stray_name_errors : forall (st : store) (keep : id -> bool) fuel bstr s0 t en i,
+Theorem C16_prune_stray_name_errors : forall (tmp_rule : bool) (st : store) (keep : id -> bool) fuel bstr s0 t en i,
   is_dir (stat (st_base st) s0) = true ->
   stat (st_base st ++ t) s0 = Some en -> is_dir (Some en) = false ->
-  has_prefix (last (st_base st ++ t) []) tmpChunkPrefix_bytes = false ->
+  (tmp_rule = true -> has_prefix (last (st_base st ++ t) []) tmpChunkPrefix_bytes = false) ->
   base_file_id (st_unc st) (last (st_base st ++ t) []) = Some i -> keep i = false ->
   stat (snd (name_from_id st i)) s0 = None ->
-  snd (prune fuel st bstr keep s0) <> None.
+  snd (prune_gen tmp_rule fuel st bstr keep s0) <> None.
 Proof. exact prune_stray_errors. Qed.
 Print Assumptions C16_prune_stray_name_errors.
+
+(* The recursion budget of the walk model is not a restriction: above the depth of the tree below the
+   base it never runs out (the oracle runs with 64; real stores have depth 2). *)
+Theorem C16_prune_fuel_suffices : forall (tmp_rule : bool) (st : store) (keep : id -> bool) fuel bstr s0,
+  (forall q en, stat (st_base st ++ q) s0 = Some en -> length q < fuel) ->
+  snd (prune_gen tmp_rule fuel st bstr keep s0) <> Some WeFuel.
+Proof. exact prune_fuel_suffices. Qed.
+Print Assumptions C16_prune_fuel_suffices.
 
 (* The filter of the walk callbacks (suffix test on the path string, id from the base name) is a
    function of the base name alone. *)
